@@ -416,7 +416,7 @@ func (s seededSelector) Select(options map[string]*planner.PlanConfig) *planner.
 func (s seededSelector) UpdateStats(*planner.PlanConfig, time.Duration) {}
 
 func (p *SeededPlanner) GetPlanSelector(k keys.Key) planner.Selector {
-	key := k.String()
+	key := string(k.Bytes())
 	p.mu.Lock()
 	for _, id := range p.strip {
 		if id != "" {
